@@ -162,10 +162,15 @@ func (w *vpWorld) ageSessionOpt(j *vpJar, d time.Duration, expire bool) error {
 }
 
 var vpOpOf = map[string]string{"load": "get", "reload": "get", "obtain_ok": "lock_obtain", "obtain_fail": "lock_obtain",
-	"refresh_ok": "token_refresh", "refresh_fail": "token_refresh", "save": "set", "release": "lock_release", "clear": "del"}
+	"refresh_ok": "token_refresh", "refresh_fail": "token_refresh", "save": "set", "release": "lock_release", "clear": "del", "delete": "del"}
 
 // runBehaviour executes one behaviour (scheduled when steps != nil, free-running otherwise) and returns its trace.
-func vpRunRefreshBehaviour(w *vpWorld, mode string, stale bool, n int, steps []vpStep, lockExpires bool) (events []map[string]interface{}, diverged string, err error) {
+func vpRunRefreshBehaviour(w *vpWorld, mode string, stale bool, n int, steps []vpStep, lockExpires bool, signouts ...int) (events []map[string]interface{}, diverged string, err error) {
+	isSignOut := map[int]bool{}
+	for _, r := range signouts {
+		isSignOut[r] = true
+	}
+	var signedOut int32
 	idp := w.idp
 	idp.mu.Lock()
 	idp.rotate, idp.refreshMode = true, "ok"
@@ -256,6 +261,17 @@ func vpRunRefreshBehaviour(w *vpWorld, mode string, stale bool, n int, steps []v
 			target := "/private"
 			if authonly {
 				target = w.prefix() + "/auth"
+			}
+			if isSignOut[r] {
+				// this request is a sign-out: same session loader, then the stored session is deleted
+				resp := inst.do(vpReq{Target: w.prefix() + "/sign_out", Cookie: cookie})
+				results[r] = resp
+				if resp.Status/100 == 3 {
+					atomic.StoreInt32(&signedOut, 1)
+				}
+				tr.add(map[string]interface{}{"kind": "signout", "r": r, "ok": resp.Status/100 == 3, "gen": -1, "status": resp.Status, "panic": resp.Panic != ""})
+				sc.done <- r
+				return
 			}
 			resp := inst.do(vpReq{Target: target, Cookie: cookie})
 			results[r] = resp
@@ -393,7 +409,9 @@ func vpRunRefreshBehaviour(w *vpWorld, mode string, stale bool, n int, steps []v
 			calls++
 		}
 	}
-	tr.add(map[string]interface{}{"kind": "end", "r": 0, "ok": w.mr.Exists(key), "gen": -1, "served": served, "calls": calls, "n": n})
+	// (signedOut: a sign-out of this behaviour was answered with the success redirect; lateOk: the browser's cookie still authenticates)
+	tr.add(map[string]interface{}{"kind": "end", "r": 0, "ok": w.mr.Exists(key), "gen": -1, "served": served, "calls": calls, "n": n,
+		"signedOut": atomic.LoadInt32(&signedOut) == 1, "lateOk": late.UpHits > 0})
 	return tr.events, diverged, nil
 }
 
@@ -425,7 +443,15 @@ func init() {
 					for k := range c.Steps {
 						steps[k] = vpStep{A: c.Steps[k].A, Args: map[string]interface{}{"r": c.Steps[k].Args["r"]}}
 					}
-					evs, div, err := vpRunRefreshBehaviour(w, vpS(cm, "mode"), vpB(cm, "stale"), vpI(cm, "n"), steps, vpB(cm, "lockExpires"))
+					var sos []int
+					if l, ok := cm["signouts"].([]interface{}); ok {
+						for _, x := range l {
+							if f, ok := x.(float64); ok {
+								sos = append(sos, int(f))
+							}
+						}
+					}
+					evs, div, err := vpRunRefreshBehaviour(w, vpS(cm, "mode"), vpB(cm, "stale"), vpI(cm, "n"), steps, vpB(cm, "lockExpires"), sos...)
 					if err != nil {
 						env.emit(vpOut{ID: c.ID, Err: err.Error()})
 						// the world may hold blocked goroutines: replace it
